@@ -8,6 +8,8 @@ import (
 	"fmt"
 	"os"
 	"os/exec"
+	"regexp"
+	"sort"
 	"strings"
 
 	"github.com/Syuparn/pangaea/object"
@@ -24,6 +26,7 @@ func init() {
 		Rule: "a raise (explicit ValueErr through a nested call, a natural ZeroDivisionErr, and a natural StopIterErr outside iterator bodies) is injected at every evaluation slot of every construct (array/object/map literal incl. unpacking, range bounds, call callee/arguments/keyword/unpack/trailing function, receiver, chain argument, " +
 			"infix/prefix operands, if/else parts, guarded jumps, assignment, embedded string pieces, index expressions, keyword defaults, parameter expressions, _incBy/<=> hooks of an iterated range, the first step of an iterator consumed by each of 33 native Iterable methods, element k of n in the 9 non-thoughtful chain context x 3 call forms), " +
 			"single level and nested two levels, in 6 contexts (top-level program, function body with pending defer, try step, thoughtful scalar chain, list-chain element, deferred expression); " +
+			"every error prototype of the root scope raised explicitly (kind and message reach try/catch through a nested call and a defer); callbacks: every property reachable from 10 kinds of receivers (Either values excluded: a call on them is an Either step, C13's subject) (names discovered at run time) is handed a raising callback in 5 call forms, plus the predicate forms ===, !==, case, asFor?: whenever the callback ran, its error comes out; " +
 			"uncaught errors through the real command-line binary (script file, -e one-liner) for 5 error kinds x 14 messages (with %, quotes, backslashes, non-ASCII, empty): stdout stops at the raise, exit status non-zero, first stderr line is kind and message; " +
 			"oracle: nothing but pending-defer output after the marker, no assignment, injected kind+message reaches the handler/top, no error object stored inside a value; " +
 			"non-trivial = every case (each has exactly one injected fault); distinct = distinct (construct, slot, inner construct, inner slot, context, fault kind)",
@@ -529,6 +532,8 @@ func run(c *core.Ctx) {
 		}
 		judge(c, t, o, false)
 	})
+	sweepCallbacks(c)
+	raiseKinds(c)
 	cs := cliCases()
 	tk.Sharded(c, len(cs), func(i int) { judgeCLI(c, cs[i]) })
 	c.Note("command_line_cases_total", len(cs))
@@ -545,6 +550,153 @@ func run(c *core.Ctx) {
 			c.Sample(map[string]string{"case": t.desc(), "source": t.src()})
 		}
 		judge(c, t, o, assigned)
+	})
+}
+
+// ---------------------------------------------------------------- callbacks handed to built-in and native properties
+
+type cbCase struct {
+	Mode string `json:"mode"` // "callback"
+	Recv string `json:"recv"`
+	Prop string `json:"prop"`
+	Form string `json:"form"`
+	Ctx  string `json:"ctx"`
+}
+
+var cbRecvs = []struct{ src, protos string }{
+	{"[1, 5, 7]", "[Arr, Iterable, Obj, BaseObj]"}, {`"ab"`, "[Str, Iterable, Comparable, Obj, BaseObj]"}, {"(1:4)", "[Range, Iterable, Obj, BaseObj]"}, {"{a: 1, b: 2}", "[Obj, Iterable, BaseObj]"},
+	{"%{1: 2, [3]: 4}", "[Map, Iterable, Obj, BaseObj]"}, {"3", "[Int, Num, Comparable, Iterable, Obj, BaseObj]"}, {"2.5", "[Float, Num, Comparable, Obj, BaseObj]"},
+	{"<{|i| yield i if i < 3; recur(i + 1)}>.new(0)", "[Iter, Iterable, Func, Obj, BaseObj]"},
+	{"nil", "[Nil, Obj, BaseObj]"}, {"{|x| x}", "[Func, Obj, BaseObj]"},
+}
+
+// call forms: CB is the callback (it prints the marker and raises when it is called)
+var cbForms = []string{"RECV.PROP CB", "RECV.PROP(CB)", "RECV.PROP(1) CB", "RECV.PROP(CB, CB)", "RECV.PROP(5, CB)", "5 === CB", "RECV === CB", "RECV.case(%{CB: 1})", "CB.asFor?(RECV)", "RECV !== CB"}
+
+var cbSkip = map[string]bool{"p": true, "puts": true, "print": true, "exit": true, "import": true, "invite!": true, "read": true, "eval": true, "evalEnv": true, "argv": true, "try": true, "bear": true, "bro": true, "new": true,
+	"call": true, "callProp": true, "which": true, "_missing": true, "_literalProxy": true, "repr": true, "S": true, "B": true}
+
+func (t cbCase) src() string {
+	cb := "{|x, y| bm(0)}"
+	e := strings.NewReplacer("RECV", "("+t.Recv+")", "PROP", t.Prop, "CB", cb).Replace(t.Form)
+	if t.Ctx == "try" {
+		return "r := nil.try.{|u| " + e + "}\n\"post\".p\nr.A"
+	}
+	return "f := {||\n defer \"defer\".p\n z := " + e + "\n \"after\".p\n z\n}\nf()"
+}
+
+// sweepCallbacks: every property reachable from 10 kinds of receivers (Either values excluded: a call on them is an Either step, C13's subject) is given a callback that raises, in 5 call forms
+// (plus the predicate forms ===, !==, case, asFor?); whenever the callback was actually called, its error must come
+// out and nothing after the call may run. Names are discovered at run time.
+func sweepCallbacks(c *core.Ctx) {
+	var cases []cbCase
+	seen := map[string]bool{}
+	for _, r := range cbRecvs {
+		var names []string
+		for _, pn := range strings.Split(strings.Trim(r.protos, "[]"), ", ") {
+			v, ok := c.R().Root.Get(object.GetSymHash(pn))
+			po, isObj := v.(*object.PanObj)
+			if !ok || !isObj || po.Pairs == nil {
+				c.HarnessError("prototype %s is not an object of the root scope", pn)
+				return
+			}
+			for _, pair := range *po.Pairs {
+				if ks, ok := pair.Key.(*object.PanStr); ok && identRe.MatchString(ks.Value) && !cbSkip[ks.Value] {
+					names = append(names, ks.Value)
+				}
+			}
+		}
+		sort.Strings(names)
+		for _, n := range names {
+			for fi, f := range cbForms {
+				if !strings.Contains(f, "PROP") && (n != names[0]) {
+					continue // predicate forms do not depend on the property: once per receiver
+				}
+				for _, ctx := range []string{"fn", "try"} {
+					t := cbCase{Mode: "callback", Recv: r.src, Prop: n, Form: cbForms[fi], Ctx: ctx}
+					if !seen[t.src()] {
+						seen[t.src()] = true
+						cases = append(cases, t)
+					}
+				}
+			}
+		}
+	}
+	c.Note("callback_cases_total", len(cases))
+	tk.Batched(c, 400, prelude, func(emit func(cbCase)) {
+		for _, t := range cases {
+			emit(t)
+		}
+	}, func(t cbCase) string { return t.src() }, func(t cbCase, o panrun.Obs) { judgeCallback(c, t, o) })
+}
+
+var identRe = regexp.MustCompile(`^[a-zA-Z][a-zA-Z0-9_]*[!?]?$`)
+
+func judgeCallback(c *core.Ctx, t cbCase, o panrun.Obs) {
+	c.Validated(1)
+	if o.Kind == "syntax" {
+		c.HarnessError("callback case does not parse: %s: %s", t.src(), o.ErrMsg)
+		return
+	}
+	if o.Kind == "discard" || o.Kind == "panic" {
+		c.Outcome("callback:" + o.Kind) // C01's subject
+		return
+	}
+	class, exp, got := verdict(tcase{Ctx: t.Ctx, Fault: "bm", Inner: -1}, o, false)
+	if class == "-" {
+		c.Outcome("callback:not-called")
+		return
+	}
+	c.Nontrivial(1)
+	c.Outcome("callback:" + o.Kind)
+	if class == "" {
+		return
+	}
+	what := t.Prop
+	if !strings.Contains(t.Form, "PROP") {
+		what = strings.TrimSpace(strings.NewReplacer("RECV", "", "CB", "", "(", "", ")", "", "%{", "", ": 1}", "", ".", "").Replace(t.Form))
+	}
+	c.Violation(core.Violation{Key: "callback/" + what + "/" + class, Case: core.JSON(t), Desc: strings.ReplaceAll(t.src(), "\n", "; "), Expected: exp, Observed: got, Repro: prelude + "zz := {||\n" + t.src() + "\n}\nzz().p\n"})
+}
+
+// ---------------------------------------------------------------- every error kind of the root scope, raised explicitly
+
+// raiseKinds: `raise K.new(msg)` for every error prototype K found in the root scope delivers kind K and the message to
+// a try step, to a function's caller (through a pending defer) and out of a nested call chain.
+func raiseKinds(c *core.Ctx) {
+	var kinds []string
+	for h, v := range c.R().Root.Store {
+		name, _ := object.SymHash2Str(h)
+		ps, ok := name.(*object.PanStr)
+		if !ok || !strings.HasSuffix(ps.Value, "Err") || ps.Value == "EitherErr" {
+			continue
+		}
+		if _, isObj := v.(*object.PanObj); isObj {
+			kinds = append(kinds, ps.Value)
+		}
+	}
+	sort.Strings(kinds)
+	c.Note("error_kinds_raised_explicitly", strings.Join(kinds, ","))
+	if len(kinds) < 10 {
+		c.HarnessError("only %d error prototypes found in the root scope", len(kinds))
+		return
+	}
+	tk.Batched(c, 50, prelude, func(emit func(string)) {
+		for _, k := range kinds {
+			emit(k)
+		}
+	}, func(k string) string {
+		return "kf := {|| defer \"kd\".p; raise " + k + ".new(\"msg of " + k + "\")}\nkg := {|| [1, kf(), 2]}\nr := nil.try.{|u| kg()}\n[r.A.S, r.err.type == " + k + ", r.err.kindOf?(" + k + "), 1.try.{|u| kf()}.catch(" + k + ") {|e| 'caught}.val]"
+	}, func(k string, o panrun.Obs) {
+		c.Validated(1)
+		c.Nontrivial(1)
+		want := `["[nil, [` + k + `: msg of ` + k + `]]", true, true, "caught"]`
+		c.Outcome("raise-kind:" + o.Kind)
+		if o.Kind == "value" && o.Repr == want && o.Out == "kd\nkd\n" {
+			return
+		}
+		c.Violation(core.Violation{Key: "explicit-raise/" + k + "/wrong-error", Case: core.JSON(map[string]string{"raise_kind": k}), Desc: "raise " + k + ".new(...) through a nested call, a defer and a try step", Expected: want + ` out="kd\nkd\n"`,
+			Observed: o.Short() + fmt.Sprintf(" out=%q", o.Out), Repro: "r := nil.try.{|u| raise " + k + ".new(\"m\")}\nr.A.p\n"})
 	})
 }
 
@@ -639,6 +791,13 @@ func judgeCLI(c *core.Ctx, t cliCase) {
 }
 
 func replay(c *core.Ctx, raw json.RawMessage) {
+	var cb cbCase
+	if json.Unmarshal(raw, &cb) == nil && cb.Mode == "callback" {
+		obs := c.R().Thunks(prelude, []string{cb.src()}, "")
+		c.Eval(1)
+		judgeCallback(c, cb, obs[0])
+		return
+	}
 	var ct cliCase
 	if json.Unmarshal(raw, &ct) == nil && ct.Mode == "cli" {
 		judgeCLI(c, ct)
